@@ -81,7 +81,10 @@ class C07(Check):
 
     def _run_node(self, scn: dict, ws: dict, out: Outcome, tag: str = "") -> None:
         from ..worlds.wire import Node, NodeError, apply_fault
-        import pydsdl
+        from ..worlds.workspace import hosted_library
+        pydsdl = hosted_library(ws)  # the real module; serialize / deserialize run under this run's host process configuration
+        out.stats["host:debug_logging"] += int(pydsdl._env[0])
+        out.stats["host:warnings_as_errors"] += int(pydsdl._env[1])
         try:
             node = Node(ws)
         except NodeError as ex:
